@@ -85,6 +85,12 @@ def chunks_of(xs, n):
     return [xs[i:i + n] for i in range(0, len(xs), n)]
 
 
+def iterable_of(xs, kind):
+    """the same items as a list, a tuple, a generator, an iterator or the key view of a mapping"""
+    return {'list': lambda: list(xs), 'tuple': lambda: tuple(xs), 'gen': lambda: (x for x in xs),
+            'iter': lambda: iter(list(xs)), 'dict_keys': lambda: {x: None for x in xs}.keys()}[kind]()
+
+
 class PMap(Suite):
     name = 'parallel_map'
     imports = 'Par'
@@ -134,7 +140,8 @@ Definition pm_model (c : list Z * nat * bool * nat * list (list nat) * (Z * Z) *
                 fails = [rng.choice(xs)]
             sort = True if which == 'iter' else rng.random() < 0.75
             out.append(dict(xs=xs, threads=threads, sort=sort, chunksize=chunksize, orders=orders,
-                            a=rng.choice([1, 2, -3]), b=rng.randrange(-5, 6), fails=fails, which=which))
+                            a=rng.choice([1, 2, -3]), b=rng.randrange(-5, 6), fails=fails, which=which,
+                            kind=rng.choice(['list', 'list', 'tuple', 'gen', 'iter', 'dict_keys'])))
         return out
 
     def run_impl(self, case):
@@ -172,11 +179,11 @@ Definition pm_model (c : list Z * nat * bool * nat * list (list nat) * (Z * Z) *
         try:
             if case['which'] == 'threading':
                 from taskchain.utils.threading import parallel_map
-                res = parallel_map(f, list(xs), threads=case['threads'], sort=case['sort'], use_tqdm=False,
-                                   chunksize=case['chunksize'])
+                res = parallel_map(f, iterable_of(xs, case.get('kind', 'list')), threads=case['threads'], sort=case['sort'],
+                                   use_tqdm=False, chunksize=case['chunksize'])
             else:
                 from taskchain.utils.iter import parallel_map
-                res = parallel_map(f, list(xs), threads=case['threads'])
+                res = parallel_map(f, iterable_of(xs, case.get('kind', 'list')), threads=case['threads'])
             out = dict(result=list(res))
         except KeyError as e:
             out = dict(error=e.args[0])
